@@ -14,7 +14,7 @@ func init() {
 	register(&propInfo{
 		ID:          "C07",
 		Run:         runC07,
-		MinObl:      40,
+		MinObl:      77,
 		Explanation: "Decided: R1 expiry guards — every module implementation of Validate{AccessToken,AuthorizeCode,RefreshToken,DeviceCode,UserCode} reaches a success exit only with ¬(IsZero(exp) ∧ Before(RequestedAt+lifespan_K, now)) ∧ ¬(¬IsZero(exp) ∧ Before(exp, now)) where exp = GetExpiresAt(session, K) for the token type K the method is named for and lifespan_K its configuration getter (refresh: a zero expiry means unlimited); the expiry exit derives from ErrTokenExpired / ErrDeviceExpiredToken; JWT: the JWT access-token validator returns Claims.Valid() after a successful decode, MapClaims.Valid returns nil only if VerifyExpiresAt/IssuedAt/NotBefore(now) held, and the small comparators return now<=exp, now>=iat, now>=nbf; R2 writer/reader agreement: every token type with a SetExpiresAt(K, ·) writer in the module has a reader in this table that passed (par_context: the authorization endpoint's PAR continuation); R3 lifespan keys: every SetExpiresAt(K, now+d) with d from GetEffectiveLifespan(client, G, K', fallback) has K==K', fallback = the configuration getter of K and G = the grant constant of the enclosing handler type (frozen table); refresh-token writers are guarded by d > -1; in the per-client lifespan selector each of the 12 ClientLifespanConfig fields is returned only under the (grant, token type) pair it is declared for; R4 advertised lifetime: every SetExpiresIn / expires_in parameter derives from GetExpiresAt(session, access_token) − now or the same effective lifespan, the JWT exp claim is GetExpiresAt(session, token type), device expires_in derives from the stored user_code expiry, PAR expires_in from the stored expiry's lifespan; R5 JWT assertions: client assertions and JWT-bearer grants succeed only with Claims.Valid()==nil / the exp claim checked against now. R4 (builder) every implementation of JWTClaimsContainer.With installs its expiry argument into ExpiresAt on every path; R6 after a storage lookup Validate{AccessToken,RefreshToken,DeviceCode} judge the request the store returned, not the incoming request (documented exception: the authorization-code handler, whose issue phase re-validates with the stored session installed); R7 every SetExpiresAt(kind) on a request's session precedes the storage call that persists the credential of that kind. NOT decided: numeric agreement of expires_in with wall-clock time, what now is.",
 	})
 }
@@ -921,7 +921,8 @@ func c07StampBeforePersist(c *Ctx) {
 		".CreateDeviceAuthSession": true, ".CreatePARSession": true, ".CreateOpenIDConnectSession": true, ".CreatePKCERequestSession": true}
 	n := 0
 	for _, en := range c.allEntries() {
-		if en.role == "endpoint" || !c.P.CallsNamedAny(en.fn, 3, creates) || !c.P.RefsMethod(en.fn, 3, ".SetExpiresAt") {
+		ownKindCreates := map[string]bool{".CreateAuthorizeCodeSession": true, ".CreateDeviceAuthSession": true, ".CreatePARSession": true}
+		if en.role == "endpoint" || !c.P.CallsNamedAny(en.fn, 3, creates) || !c.P.RefsMethod(en.fn, 3, ".SetExpiresAt") && !c.P.CallsNamedAny(en.fn, 3, ownKindCreates) {
 			continue
 		}
 		cfg := en.cfg
@@ -974,16 +975,7 @@ func c07StampBeforePersist(c *Ctx) {
 				if cr.Kind != "call" || kinds == nil {
 					continue
 				}
-				// only functions that are stampers: some expiry is stamped before this persist on the path
-				stamper := false
-				for _, e := range p.Events[:cr.Idx] {
-					if e.Kind == "call" && e.Name == ".SetExpiresAt" {
-						stamper = true
-					}
-				}
-				if !stamper {
-					continue
-				}
+
 				nK++
 				for _, k := range kinds {
 					found := false
